@@ -322,15 +322,18 @@ class Gridder(GeospatialGrid):
     def _calculate_segment_lengths(
         self, lats, lons, dateline_crossing_idx, dateline_crossing_sign
     ):
+        crossing_lat = dateline_crossing_latitude(
+            lats, lons, dateline_crossing_idx, dateline_crossing_sign
+        )
         first_segment_length = great_circle_distance(
             lats[dateline_crossing_idx],
             lons[dateline_crossing_idx],
-            lats[dateline_crossing_idx],
+            crossing_lat,
             np.pi if dateline_crossing_sign == -1 else -np.pi,
         )
 
         second_segment_length = great_circle_distance(
-            lats[dateline_crossing_idx],
+            crossing_lat,
             -np.pi if dateline_crossing_sign == -1 else np.pi,
             lats[dateline_crossing_idx + 1],
             lons[dateline_crossing_idx + 1],
@@ -352,6 +355,9 @@ class Gridder(GeospatialGrid):
         first_segment_length,
         total_segment_length,
     ):
+        crossing_lat = dateline_crossing_latitude(
+            lats, lons, dateline_crossing_idx, dateline_crossing_sign
+        )
         lons_first_part = np.concatenate(
             (
                 lons[: dateline_crossing_idx + 1],
@@ -361,7 +367,7 @@ class Gridder(GeospatialGrid):
         lats_first_part = np.concatenate(
             (
                 lats[: dateline_crossing_idx + 1],
-                np.array([lats[dateline_crossing_idx]]),
+                np.array([crossing_lat]),
             )
         )
         altitudes_first_part = (
@@ -433,6 +439,9 @@ class Gridder(GeospatialGrid):
         second_segment_length,
         total_segment_length,
     ):
+        crossing_lat = dateline_crossing_latitude(
+            lats, lons, dateline_crossing_idx, dateline_crossing_sign
+        )
         lons_second_part = np.concatenate(
             (
                 np.array([-np.pi if dateline_crossing_sign == -1 else np.pi]),
@@ -442,7 +451,7 @@ class Gridder(GeospatialGrid):
 
         lats_second_part = np.concatenate(
             (
-                np.array([lats[dateline_crossing_idx]]),
+                np.array([crossing_lat]),
                 lats[dateline_crossing_idx + 1 :],
             )
         )
@@ -1103,16 +1112,19 @@ class Gridder(GeospatialGrid):
 
             dateline_crossing_idx = np.where(dateline_crossing != 0)[0][0]
             dateline_crossing_sign = dateline_crossing[dateline_crossing_idx]
+            crossing_lat = dateline_crossing_latitude(
+                lats, lons, dateline_crossing_idx, dateline_crossing_sign
+            )
 
             first_segment_length = great_circle_distance(
                 lats[dateline_crossing_idx],
                 lons[dateline_crossing_idx],
-                lats[dateline_crossing_idx],
+                crossing_lat,
                 np.pi if dateline_crossing_sign == -1 else -np.pi,
             )
 
             second_segment_length = great_circle_distance(
-                lats[dateline_crossing_idx],
+                crossing_lat,
                 -np.pi if dateline_crossing_sign == -1 else np.pi,
                 lats[dateline_crossing_idx + 1],
                 lons[dateline_crossing_idx + 1],
@@ -1129,7 +1141,7 @@ class Gridder(GeospatialGrid):
             lats_first_part = np.concatenate(
                 (
                     lats[: dateline_crossing_idx + 1],
-                    np.array([lats[dateline_crossing_idx]]),
+                    np.array([crossing_lat]),
                 )
             )
             altitudes_first_part = (
@@ -1188,7 +1200,7 @@ class Gridder(GeospatialGrid):
 
             lats_second_part = np.concatenate(
                 (
-                    np.array([lats[dateline_crossing_idx]]),
+                    np.array([crossing_lat]),
                     lats[dateline_crossing_idx + 1 :],
                 )
             )
@@ -1434,6 +1446,22 @@ def calculate_line_parameters(x: NDArray, y: NDArray) -> tuple[NDArray, NDArray]
     intercepts = y[:-1] - slopes * x[:-1]
 
     return slopes, intercepts
+
+
+def dateline_crossing_latitude(lats, lons, crossing_idx, crossing_sign):
+    """Latitude at which the straight (lat, lon) line of the segment that
+    crosses the dateline meets the dateline. (All angles in radians.)
+
+    The segment is split there, so that the two parts lie on the segment
+    itself rather than on a detour along the parallel of its starting point."""
+    lon1 = lons[crossing_idx]
+    # Unwrap the end longitude so that the segment takes the short way round.
+    lon2 = lons[crossing_idx + 1] - 2.0 * np.pi * crossing_sign
+    edge = -np.pi * crossing_sign
+    fraction = (edge - lon1) / (lon2 - lon1)
+    return lats[crossing_idx] + fraction * (
+        lats[crossing_idx + 1] - lats[crossing_idx]
+    )
 
 
 def crosses_dateline(lon1, lon2):
